@@ -107,12 +107,22 @@ func (c *Checker) storeInCache(hashesToRequest, respHashes []hostnameHash) {
 
 	for _, hash := range hashesToRequest {
 		val := c.cache.Get(hash[:prefixLen])
-		if val == nil {
-			var pref prefix
-			copy(pref[:], hash[:])
-
-			c.setCache(pref, nil)
+		if val != nil {
+			continue
 		}
+
+		var pref prefix
+		copy(pref[:], hash[:])
+
+		if _, ok := hashToStore[pref]; ok {
+			// The response contains hashes for this prefix.  Don't store an
+			// empty item for it even if the cache has rejected or has already
+			// evicted the item with the hashes, since that would make the
+			// blocked hostnames look unblocked until the item expires.
+			continue
+		}
+
+		c.setCache(pref, nil)
 	}
 }
 
